@@ -40,6 +40,8 @@ type ClientConn struct {
 	Logger *slog.Logger
 
 	mu sync.RWMutex
+
+	disconnectOnce sync.Once // Disconnect runs once per connection, see Disconnect
 }
 
 func (cc *ClientConn) FileRoot() string {
@@ -153,15 +155,20 @@ func (cc *ClientConn) Authorize(access int) bool {
 
 // Disconnect notifies other clients that a client has disconnected and closes the connection.
 func (cc *ClientConn) Disconnect() {
-	cc.Server.ClientMgr.Delete(cc.ID)
+	// A connection can be disconnected twice: by its own connection handler when the peer goes away and by the
+	// delayed goroutine of a handler that kicked or deleted the user.  The client table is keyed by user ID and IDs
+	// are reissued, so a second run could remove (and announce as gone) a newcomer that was given the same ID.
+	cc.disconnectOnce.Do(func() {
+		cc.Server.ClientMgr.Delete(cc.ID)
 
-	for _, t := range cc.NotifyOthers(NewTransaction(TranNotifyDeleteUser, [2]byte{}, NewField(FieldUserID, cc.ID[:]))) {
-		cc.Server.outbox <- t
-	}
+		for _, t := range cc.NotifyOthers(NewTransaction(TranNotifyDeleteUser, [2]byte{}, NewField(FieldUserID, cc.ID[:]))) {
+			cc.Server.outbox <- t
+		}
 
-	if err := cc.Connection.Close(); err != nil {
-		cc.Server.Logger.Debug("error closing client connection", "RemoteAddr", cc.RemoteAddr)
-	}
+		if err := cc.Connection.Close(); err != nil {
+			cc.Server.Logger.Debug("error closing client connection", "RemoteAddr", cc.RemoteAddr)
+		}
+	})
 }
 
 // NotifyOthers sends transaction t to other clients connected to the server
